@@ -241,7 +241,9 @@ class Checker:
                 print('VIOLATION property=%s replay=%s obligation="package-level variables are written only by their initialiser" no-failing-input-found' % (pid, gp))
         # instances must not share mutable state through package-level variables (ownership scan, shared.py)
         self.shared_accepted, self.shared_report = [], []
-        if pid in SHARED_STATE_PROPERTIES:
+        if True:
+            # (the ownership scan runs with every property: state shared between instances can break any of them on reuse;
+            # the nondeterminism scan below only with C05 and C19)
             from . import shared as shared_mod
             sf, self.shared_accepted, self.shared_report = shared_mod.scan(prog, cs.shared)
             for g, what in sf:
@@ -255,7 +257,7 @@ class Checker:
                       % (pid, gp, g.rsplit('/', 1)[-1]))
             # A2 (the code is a function of its inputs): every range over a map, clock read, random draw or goroutine in the module
             # must be accepted by a directive that says why the result does not depend on it - or that it is meant to
-            nf, self.nondet_accepted = shared_mod.nondeterminism(prog, cs)
+            nf, self.nondet_accepted = shared_mod.nondeterminism(prog, cs) if pid in SHARED_STATE_PROPERTIES else ([], [])
             for g, what in nf:
                 print('NONDETERMINISM: %s' % what)
                 gp = os.path.join(VERIF, 'replays', '%s-nondeterminism.json' % pid)
